@@ -26,6 +26,17 @@ CHECKS = {
         "Simulated reads only; mode 4 judged only with pseudogene + deletion allele + estimated structure; mode 5 only on routes using a neutral region.",
         "DESIGN.md 5/C19",
     ),
+    "C03": (
+        "differential testing of solve_cn_model against an exhaustive count-vector enumerator on Hypothesis-generated depth vectors; route predicates",
+        "Region-depth vectors (planted structures of 0-5 configurations incl. inexpressible ones, noise <= 0.5, max copy number 3-6, gap 0-0.3, "
+        "optional fusion-support values around the documented cut) over toy, CYP2A6, CYP2D6, GSTM1 and generated databases are solved and "
+        "compared with an enumerator of all admissible count vectors written from the documented objective: well-formedness, optimum, "
+        "per-structure score (with the exclusion-cut allowance), gap bound, no duplicates, completeness modulo supersets, region_cn. Routes: "
+        "verbatim user structure, unknown names rejected, two-copy default for genes without structural alleles / exome switch / VCF input, "
+        "one copy for male + X/Y.",
+        "Scores at 1e-4; enumeration bounded by max copy number 6; exome route through the do_copy_number switch only.",
+        "DESIGN.md 5/C03",
+    ),
     "C05": (
         "differential testing: Hypothesis-generated models vs exhaustive enumeration of all binary assignments; exhaustive helper linearisations; cross-solver (SCIP, HiGHS) audit of the models aldy builds",
         "(i) random models of aldy's shape built through aldy.lpinterface and enumerated over all 2^n binary assignments: first solution "
